@@ -171,7 +171,14 @@ def run(ctx: Ctx):
         ctx.extra["lockstep_mismatching_cases"] = n_mismatch
     ctx.extra["input_distribution"] = {"cases": dist, "ops": opdist}
     ctx.extra["repo_tree_sha"] = ctx.repo_tree_sha(ANCHOR_FILES)
-    ctx.extra["not_proved"] = []
+    ctx.extra["not_proved"] = [
+        "concurrent callers: every public method is one atomic step of the model (it holds _mutex for its whole body); get()'s cache fast path runs under "
+        "_cacheMutex only. The theorems cover every sequential order of those sections; readers racing a writer, the clock and the real eviction worker are "
+        "exercised by the `stress` op with an implementation-side safety monitor (no torn or foreign value), not proved (DetSched schedules not built)",
+        "bounded cache size (_cache.size() <= maxCacheSize) is checked by the implementation-side invariant monitor on every read, not stated as a theorem",
+        "TimingWheel scheduling (clampDelay, levels, cascade) is not modelled: the eviction callback may arrive for any key, any generation, at any time, "
+        "which covers every wheel behaviour (early, late, never)",
+        "sub-millisecond expiries (persisted truncated to ms) and deadlines beyond the representable range of system_clock are outside the model (stated assumptions)"]
     ctx.assumptions += [
         "times are whole milliseconds (system_clock has ns resolution; expiries are persisted truncated to ms, so a sub-millisecond expiry can lapse up to 1 ms early after a restart — not modelled)",
         "the wall clock never goes backwards (the harness only advances CLOCK_REALTIME)",
